@@ -43,7 +43,7 @@ for spec in "$@"; do
   echo "  check $id $tier: exit=$rc ${sig}"
   res="$res{\"check\":\"$id\",\"tier\":\"$tier\",\"exit\":$rc,\"first_signature\":$(python3 -c 'import json,sys;print(json.dumps(sys.argv[1]))' "$sig")},"
 done
-git -C /repo checkout -q -- . ; git -C /repo status --short | grep -v '^??' 
+git -C /repo checkout -q -- . ; git -C /repo clean -fdq ; git -C /repo status --short
 rm -rf /tmp/verif.seedout.*
 python3 - "$D" "[${res%,}]" <<'PY'
 import json,sys
